@@ -28,7 +28,6 @@ inductive Cmd where
   | resume (ack : Nat)
   | stop (graceful : Bool) (completion : Option Nat)
   | workerFaulted (idx : Nat)
-  | workerFaultedFail (idx : Nat)   -- a `WorkerFaulted(idx)` whose `ServerWorker::start` fails (the factory cannot make the services)
 deriving DecidableEq, Repr
 
 inductive Ev where
@@ -39,7 +38,7 @@ inductive Ev where
   | awaitWorker (w : Nat)             -- `join_all`: worker `w`'s reply receiver resolved
   | joinAccept                        -- the accept thread was joined (it has exited)
   | restartWorker (idx : Nat)
-  | restartFailed (idx : Nat)         -- `error!("can not restart worker ..")`: logged, nothing else
+  | restartFailed (idx : Nat)         -- `ServerWorker::start` failed: `error!("can not restart worker ..")`, nothing else
   | returned                          -- `ServerInner::run` returned `Ok(())`: the `Server` future resolves
 deriving DecidableEq, Repr
 
@@ -49,6 +48,8 @@ structure St where
   stopping : Bool := false
   returned : Bool := false
   panicked : Bool := false            -- `assert!(worker_handles.iter().any(..))` failed
+  restarts : Nat := 0                 -- restarts attempted so far
+  failAt : Option Nat := none         -- the environment: the restart attempt with this number fails (the factory cannot make the services)
   log : List Ev := []
 deriving Repr
 
@@ -75,10 +76,10 @@ def handle (s : St) : Cmd → St
   | .resume a => emit s [.wake .resume, .ack a]
   | .stop g comp => { (emit s (stopEvs s.wakeFirst s.workers g comp)) with stopping := true }
   | .workerFaulted idx =>
-    if idx ∈ s.workers then emit s [.restartWorker idx, .wake (.worker idx)] else { s with panicked := true }
-  | .workerFaultedFail idx =>
-    -- a restart that fails is logged and leaves the server as it is: the loop goes on, later faults are still handled
-    if idx ∈ s.workers then emit s [.restartFailed idx] else { s with panicked := true }
+    if idx ∈ s.workers then
+      -- a restart that fails is logged and leaves the server as it is: the loop goes on, later faults are still handled
+      { (emit s (if s.failAt = some s.restarts then [.restartFailed idx] else [.restartWorker idx, .wake (.worker idx)])) with restarts := s.restarts + 1 }
+    else { s with panicked := true }
 
 /-- the ack channel inside a command -/
 def Cmd.ack? : Cmd → Option Nat
@@ -86,7 +87,6 @@ def Cmd.ack? : Cmd → Option Nat
   | .resume a => some a
   | .stop _ c => c
   | .workerFaulted _ => none
-  | .workerFaultedFail _ => none
 
 /-- dropping the command channel with `cs` still in it -/
 def droppedAcks (cs : List Cmd) : List Ev := cs.filterMap fun c => c.ack?.map .ackDropped
@@ -110,7 +110,6 @@ inductive Call where
   | stop (graceful : Bool)
   | signal (sig : Src.Signal)
   | faulted (idx : Nat)
-  | faultedFail (idx : Nat)   -- a fault report whose restart will fail
 deriving DecidableEq, Repr
 
 structure Sys where
@@ -125,7 +124,6 @@ def call (y : Sys) : Call → Sys × Option Nat
   | .stop g => ({ cmds := y.cmds ++ [.stop g (some y.nextAck)], nextAck := y.nextAck + 1 }, some y.nextAck)
   | .signal sig => ({ y with cmds := y.cmds ++ [cmdOfSignal sig] }, none)
   | .faulted idx => ({ y with cmds := y.cmds ++ [.workerFaulted idx] }, none)
-  | .faultedFail idx => ({ y with cmds := y.cmds ++ [.workerFaultedFail idx] }, none)
 
 def calls (y : Sys) : List Call → Sys
   | [] => y
@@ -139,5 +137,9 @@ def lateCall (y : Sys) (c : Call) : List Ev := droppedAcks ((call y c).1.cmds.dr
 /-- a server with workers `0..n-1`, after the calls `cs` were made, run to quiescence -/
 def serve (wakeFirst : Bool) (n : Nat) (cs : List Call) : St :=
   runLoop { workers := List.range n, wakeFirst := wakeFirst } (calls {} cs).cmds
+
+/-- … in an environment in which restart attempt number `k` fails -/
+def serveFailing (wakeFirst : Bool) (n : Nat) (k : Nat) (cs : List Call) : St :=
+  runLoop { workers := List.range n, wakeFirst := wakeFirst, failAt := some k } (calls {} cs).cmds
 
 end ActixNet.ServerCmd
